@@ -1,4 +1,4 @@
-\* C09 batch tier, thorough (see ScenThorough in MC_Reclaim.tla)
+\* C09 batch tier, thorough, single pods (see ScenSingles in MC_Reclaim.tla)
 SPECIFICATION Spec
 CONSTANTS
   ChargeNoMetricInMaxUR = TRUE
@@ -7,17 +7,17 @@ CONSTANTS
   ThrStep = 25
   MinThr = 50
   Pcts <- PctsAll
-  PolC = {"", "usage", "maxUsageRequest"}
-  PolM = {"", "usage", "request", "maxUsageRequest"}
+  PolC = {"", "maxUsageRequest"}
+  PolM = {"usage", "request", "maxUsageRequest"}
   Ages <- AgesAll
   MaxSys = 2
   MaxKRes = 1
-  MaxAnno = 2
+  MaxAnno = 1
   MaxApp = 1
   MaxReq = 2
-  MaxUse = 3
+  MaxUse = 2
   MaxDang = 1
-  Scenarios <- ScenThorough
+  Scenarios <- ScenSingles
 INVARIANT ImplOK
 PROPERTY Mono
 PROPERTY RaiseIsRaise
